@@ -880,6 +880,26 @@ func main() {
 	if failed {
 		os.Exit(1)
 	}
+	{
+		var sb strings.Builder
+		sb.WriteString("(* GENERATED by /verif/tools/gotrans from /repo's working tree - do not edit *)\nFrom Coq Require Import List String.\nImport ListNotations.\nOpen Scope string_scope.\n\n")
+		specs := []callSpec{
+			{file: "internal/transfer/multistream.go", fn: "RecvManifestMultiStream", closure: "readDataStream", out: "sk_recv_reader",
+				names: []string{"readFullWithTimeout", "readFullWithTimeoutDelta", "Checksum", "openFile", "writeAtWithTimeout", "markChunkComplete", "finalizeFile"}},
+			{file: "internal/transfer/sidecar.go", fn: "Flush", recv: "Sidecar", out: "sk_sidecar_flush",
+				names: []string{"Lock", "Marshal", "WriteFile", "Rename", "=s_dirty"}},
+			{file: "internal/transfer/multistream.go", fn: "RecvManifestMultiStream", closure: "handleFileBegin", out: "sk_recv_filebegin",
+				names: []string{"validateRelPath", "MkdirAll", "OpenFile", "Truncate", "LoadOrCreateSidecarWithFallback"}},
+		}
+		for _, sp := range specs {
+			sp := sp
+			sb.WriteString(run(sp.out, func() string { return callSkeleton(files, sp) }))
+			sb.WriteString("\n")
+		}
+		if !failed {
+			write("Calls.v", sb.String())
+		}
+	}
 	write("HubLocks.v", lockSkeletons(files["internal/peers/hub.go"], "Hub", "h.mu", []string{"h.sessions", "h.byPeerID", "sessionPeers", "peerIDMap"}))
 	write("Consts.v", cb.String())
 	write("Geometry.v", gb.String())
